@@ -528,6 +528,29 @@ class Path:
                             if not callee.startswith("llvm.") and i.name:
                                 self.env[i.name] = args[0]
                             return None
+                # *dst = (T){ ... } / *dst = local_struct: an aggregate built member by member in a local temporary and copied out
+                # whole IS the member stores, when the known scalar members tile the copied range exactly
+                if kind == "memcpy" and args[2][0] == "c" and args[2][2] > 8:
+                    nb = args[2][2]
+                    sroot, soff, svar = ptr_parts(args[1])
+                    droot = ptr_parts(args[0])
+                    if sroot[0] == "alloca" and not svar and droot[0][0] != "alloca" and sroot[1] not in self.escaped:
+                        ents = sorted((k[1], v[1], v[0]) for k, v in self.mem.items()
+                                      if k[0] == sroot and not k[2] and v[1] is not None and soff <= k[1] < soff + nb)
+                        pos = soff
+                        for o, sz, v in ents:
+                            if o != pos:
+                                pos = None
+                                break
+                            pos = o + sz
+                        if ents and pos == soff + nb:
+                            for o, sz, v in ents:
+                                dp = mkptr(args[0], o - soff)
+                                self.store(dp, v, sz)
+                                self.events.append(Event("store", i, ptr=dp, val=v, size=sz))
+                            if not callee.startswith("llvm.") and i.name:
+                                self.env[i.name] = args[0]
+                            return None
                 if not callee.startswith("llvm.") and i.name:
                     self.env[i.name] = args[0]          # memcpy / memset return their destination
                 ln = args[2]
